@@ -260,6 +260,11 @@ def namesClassOnly (classRef : PTree) : IxM Bool := do
   let some (name, _) ← utilsIdentifier nameNode | return false
   withSM fun sm => (sm.findMulticlass name).isNone && (sm.findClass name).isSome
 
+/-- one parent of a multiclass (or of a defm written inside it) that is (to be) a multiclass -/
+def multiclassParent (r : Rec) (multiclassId : Nat) (classRef : PTree) : IxM Unit := do
+  if let some parentMulticlassId ← resolveClassRefAsMulticlass r classRef then
+    multiclassMut multiclassId fun mc => { mc with parentList := mc.parentList.push parentMulticlassId }
+
 /-- one parent of a `defm` that is (to be) a multiclass -/
 def defmMulticlassParent (r : Rec) (defmId : Nat) (classRef : PTree) : IxM Unit := do
   if let some parentMulticlassId ← resolveClassRefAsMulticlass r classRef then
@@ -286,6 +291,21 @@ def rangeListWidth (n : PTree) : Option Nat :=
         | none => none
         | some l => if width + l < 18446744073709551616 then some (width + l) else none
 
+/-- `SyntaxNode::text`: the texts of all tokens below a node, in order -/
+def fullTextGo : Nat → PTree → List Char
+  | 0, _ => []
+  | _, .token _ _ _ t => t.toList
+  | fuel + 1, .node _ _ _ _ cs => cs.toList.flatMap (fullTextGo fuel)
+
+def fullText (t : PTree) : List Char := fullTextGo (t.height + 1) t
+
+/-- `utils::binary_literal_width`: the number of digits of a value that is one binary literal -/
+def binaryLiteralWidth (value : PTree) : Option Nat :=
+  match Ast.dropRightWhile isWhitespace ((fullText value).dropWhile isWhitespace) with
+  | '0' :: 'b' :: digits =>
+    if !digits.isEmpty && digits.all (fun c => c == '0' || c == '1') then some digits.length else none
+  | _ => none
+
 /-- `utils::bits_typ` -/
 def bitsTyp (width : Nat) : Ty := if width == 1 then .bit else .bits width
 
@@ -306,9 +326,17 @@ def indexParentClassList (r : Rec) (n : PTree) : IxM Unit := do
           continue
         recordMut recordId fun rec => { rec with parentList := rec.parentList.push classId }
   else if let some multiclassId ← currentMulticlassId then
-    for classRef in Ast.parentClassListClasses n do
-      if let some parentMulticlassId ← resolveClassRefAsMulticlass r classRef then
-        multiclassMut multiclassId fun mc => { mc with parentList := mc.parentList.push parentMulticlassId }
+    -- the parent list of a defm written inside this multiclass ends up here as well
+    let inDefm := (← currentDefmId).isSome
+    match Ast.parentClassListClasses n with
+    | [] => pure ()
+    | first :: rest =>
+      multiclassParent r multiclassId first
+      for classRef in rest do
+        if inDefm && (← namesClassOnly classRef) then
+          let _ ← resolveClassRefAsClass r classRef
+        else
+          multiclassParent r multiclassId classRef
   else if let some defmId ← currentDefmId then
     -- the first parent is a multiclass; the multiclasses may be followed by classes for the records the defm creates
     match Ast.parentClassListClasses n with
@@ -348,8 +376,10 @@ def indexFieldLet (r : Rec) (n : PTree) : IxM Unit := do
            let _ ← r.value value
          return
   let fieldTyp ← withSM fun sm => (sm.recordField fieldId).typ
-  let newFieldId ← addRecordField { name := name, typ := fieldTyp, parent := recordId, defineLoc := referenceLoc }
-  recordMut recordId fun rec => { rec with nameToRecordField := indexMapInsert rec.nameToRecordField name newFieldId }
+  -- an inherited field gets an entry of its own in this record; a field this record declares itself stays the one it is
+  if (← withSM fun sm => (sm.recordField fieldId).parent) != recordId then
+    let newFieldId ← addRecordField { name := name, typ := fieldTyp, parent := recordId, defineLoc := referenceLoc }
+    recordMut recordId fun rec => { rec with nameToRecordField := indexMapInsert rec.nameToRecordField name newFieldId }
   addReference (.recordField fieldId) referenceLoc
   -- `let f{3-0} = v;` sets the selected bits only
   let fieldTyp := match Ast.fieldLetRangeList n with
@@ -569,10 +599,13 @@ def indexSimpleValue (r : Rec) (n : PTree) : IxM (Option Ty) := do
   | .Uninitialized => return some .uninitialized
   | .Bits =>
     let some valueList := Ast.bitsValueList n | return none
+    -- an element that is itself several bits wide (`{ x{1-0}, 0b10, 0 }`) contributes all of them
+    let mut width := 0
     for value in Ast.valueListValues valueList do
-      let _ ← r.value value
-    let some valueList := Ast.bitsValueList n | return none
-    return some (.bits (Ast.valueListValues valueList).length)
+      match ← r.value value with
+      | some (.bits elementWidth) => width := width + elementWidth
+      | _ => width := width + (binaryLiteralWidth value).getD 1
+    return some (.bits width)
   | .List =>
     let some valueList := Ast.listValueList n | return none
     -- `filter_map(|value| value.index(ctx)).collect()`: every element is indexed, the first type wins
@@ -641,7 +674,11 @@ def indexValue (r : Rec) (n : PTree) : IxM (Option Ty) := do
   match innerValues.length with
   | 0 => return none
   | 1 => return firstValueTyp
-  | _ => return some .string
+  | _ =>
+    -- `[1] # [2, 3]` pastes lists, everything else strings
+    match firstValueTyp with
+    | some (.list t) => return some (.list t)
+    | _ => return some .string
 
 /-- the knot: `mkRec fuel` are the four re-entrant impls, allowed `fuel` nested re-entries -/
 def mkRec : Nat → Rec
